@@ -192,6 +192,43 @@ def check_cull(case):
             ensure(set(deps[k]) == real, f"layer {name}: _cull_dependencies[{k}] = {sorted(map(str, deps[k]))} but the materialised task depends on {sorted(map(str, real))}", "cull-dependencies-mismatch")
 
 
+def check_recull(case):
+    """A culled graph is a high-level graph again: culling it further (to a subset of the keys, or layer-wise with
+    cull_layers - documented as "a variant of HighLevelGraph.cull") must still keep everything the keys need, with unchanged
+    values.  Both walk culled.dependencies, so this also decides whether the layer dependencies the first cull hands back
+    are complete enough for the next culling step."""
+    import dask
+
+    with impl("build array"):
+        d, r, _ = build_array(case)
+    hlg = d.__dask_graph__()
+    keys = pick_blocks(d, case.get("picks"))
+    full = dict(hlg)
+    with impl("HighLevelGraph.cull"):
+        culled = hlg.cull(keys)
+    want_keys = closure(full, keys)
+    with impl("evaluate original graph"):
+        ref = dask.get(full, keys)
+    sub = keys[: max(1, len(keys) // 2)]
+    with impl("HighLevelGraph.cull of a culled graph", fn="cull"):
+        again = dict(culled.cull(sub))
+    miss = closure(full, sub) - set(again)
+    ensure(not miss, f"second cull (of the culled graph, to {len(sub)} of its keys) dropped needed keys: {sorted(map(str, miss))[:4]}", "recull-incomplete", fn="cull")
+    with impl("evaluate twice-culled graph", fn="cull"):
+        v2 = dask.get(again, sub)
+    for k, a, b in zip(sub, v2, ref):
+        ensure(_same_block(a, b), f"block {k} differs after a second cull", "recull-value", fn="cull")
+    owners = [n for n, l in culled.layers.items() if any(k in l for k in keys)]
+    with impl("HighLevelGraph.cull_layers of a culled graph", fn="cull_layers"):
+        bylayer = dict(culled.cull_layers(owners))
+    miss = want_keys - set(bylayer)
+    ensure(not miss, f"cull(keys).cull_layers(layers holding the keys) dropped needed keys: {sorted(map(str, miss))[:4]}", "cull-layers-incomplete", fn="cull_layers")
+    with impl("evaluate cull + cull_layers graph", fn="cull_layers"):
+        v3 = dask.get(bylayer, keys)
+    for k, a, b in zip(keys, v3, ref):
+        ensure(_same_block(a, b), f"block {k} differs after cull + cull_layers", "cull-layers-value", fn="cull_layers")
+
+
 def check_fuse(case):
     import dask
     from dask.blockwise import fuse_roots, optimize_blockwise
@@ -389,6 +426,7 @@ def nontrivial_ann(case):
 
 SUBCHECKS = [
     Sub("cull", check_cull, strategy=lambda tier: graph_case(), n={"quick": 1200, "thorough": 30000}, nontrivial=nontrivial_graph, classes=lambda c: sorted({s["op"] for s in c["steps"]}), doc="HLG cull soundness/completeness/values; Blockwise._cull_dependencies vs materialised tasks"),
+    Sub("recull", check_recull, strategy=lambda tier: graph_case(), n={"quick": 600, "thorough": 20000}, nontrivial=nontrivial_graph, classes=lambda c: sorted({s["op"] for s in c["steps"]}), doc="culling a culled graph again (cull to a subset; cull_layers): completeness and values"),
     Sub("fuse", check_fuse, strategy=lambda tier: graph_case(), n={"quick": 1000, "thorough": 30000}, nontrivial=nontrivial_graph, classes=lambda c: sorted({s["op"] for s in c["steps"]}), doc="optimize_blockwise / fuse_roots preserve block values"),
     Sub("compose", check_compose, strategy=lambda tier: compose_case(), n={"quick": 1000, "thorough": 30000}, nontrivial=nontrivial_compose,
         classes=lambda c: ["chain:" + ">".join(x["op"] for x in c["chain"][:3])], doc="chains of 2-4 cull / optimize_blockwise / fuse_roots calls: every step goes through and keeps the requested block values"),
